@@ -195,7 +195,7 @@ var kinds = []string{"file", "dir", "emptydir", "symlink", "device"}
 
 func build(rng *rand.Rand) ([]byte, string) {
 	var e enc
-	construct := []string{"name", "name", "name-nested", "surplus-goodbye", "symlink-then-dir", "symlink-then-file", "symlink-then-device", "nested-symlink-then-dir", "preexisting", "mix", "replace-chain", "replace-chain", "symlink-then-slashname", "nameless", "nameless", "root-nondir", "random-sequence", "random-sequence", "tempname-symlink"}[rng.Intn(19)]
+	construct := []string{"name", "name", "name-nested", "surplus-goodbye", "symlink-then-dir", "symlink-then-file", "symlink-then-device", "nested-symlink-then-dir", "preexisting", "mix", "replace-chain", "replace-chain", "symlink-then-slashname", "nameless", "nameless", "root-nondir", "random-sequence", "random-sequence", "tempname-symlink", "named-root"}[rng.Intn(20)]
 	kind := kinds[rng.Intn(len(kinds))]
 	name := hostileNames[rng.Intn(len(hostileNames))]
 	if rng.Intn(6) == 0 {
@@ -212,7 +212,7 @@ func build(rng *rand.Rand) ([]byte, string) {
 		e.filename(fmt.Sprintf("ok%d", rng.Intn(1000)))
 		e.node([]string{"file", "emptydir"}[rng.Intn(2)], rng)
 	}
-	if construct != "root-nondir" && construct != "random-sequence" {
+	if construct != "root-nondir" && construct != "random-sequence" && construct != "named-root" {
 		e.entry(mDir) // root
 	}
 	tag := construct
@@ -274,6 +274,30 @@ func build(rng *rand.Rand) ([]byte, string) {
 			e.goodbye()
 		}
 		tag += fmt.Sprintf("|depth%d|%s", depth, strings.Join(chain, ">"))
+	case "named-root":
+		// a FILENAME in front of the very first ENTRY: the tools never write one (the root has no name), a decoder that
+		// validates names only for entries behind the root joins it into the destination path unchecked
+		rn := name
+		if rng.Intn(3) == 0 {
+			rn = []string{"../sentinel-dir", "../sentinel", "../planted", "../../outside/planted", "/outside/planted", "..", "../..", "x"}[rng.Intn(8)]
+		}
+		e.filename(rn)
+		rk := []string{"dir", "dir", "file", "symlink", "device"}[rng.Intn(5)]
+		switch rk {
+		case "dir":
+			e.entry(mDir | 0700)
+			for k := 0; k < 1+rng.Intn(3); k++ {
+				e.filename([]string{"planted", "sentinel", "keep", "sub", "q"}[rng.Intn(5)])
+				e.node(kinds[rng.Intn(len(kinds))], rng)
+			}
+			e.goodbye()
+		case "symlink":
+			e.entry(mLnk)
+			e.symlink([]string{"/outside", "../../outside", "/outside/sentinel"}[rng.Intn(3)])
+		default:
+			e.node(rk, rng)
+		}
+		tag += "|" + rk
 	case "root-nondir":
 		// the first entry (the one that becomes the destination itself) is not a directory, more entries follow
 		rk := []string{"symlink", "symlink-up", "file", "device"}[rng.Intn(4)]
@@ -326,8 +350,13 @@ func build(rng *rand.Rand) ([]byte, string) {
 				e.device()
 				sig = append(sig, "C")
 			default:
-				e.filename([]string{"a", "a", "planted", "sentinel", "sentinel-dir", "outside", "link-dir", "link-up", "p", "q", "sub"}[rng.Intn(11)])
-				sig = append(sig, "n")
+				if rng.Intn(5) == 0 {
+					e.filename(name) // a hostile one, at any position (also in front of the first ENTRY)
+					sig = append(sig, "N")
+				} else {
+					e.filename([]string{"a", "a", "planted", "sentinel", "sentinel-dir", "outside", "link-dir", "link-up", "p", "q", "sub"}[rng.Intn(11)])
+					sig = append(sig, "n")
+				}
 			}
 		}
 		tag += "|" + strings.Join(sig, "")
@@ -549,7 +578,7 @@ func run(c *harness.Ctx, i int) {
 	dir := c.CaseDir()
 	jail := filepath.Join(dir, "jail")
 	dstState := "populated"
-	if strings.HasPrefix(tag, "root-nondir") || strings.HasPrefix(tag, "random-sequence") || strings.HasPrefix(tag, "nameless") {
+	if strings.HasPrefix(tag, "root-nondir") || strings.HasPrefix(tag, "random-sequence") || strings.HasPrefix(tag, "nameless") || strings.HasPrefix(tag, "named-root") {
 		dstState = []string{"populated", "empty", "absent"}[rng.Intn(3)]
 	}
 	tag += "|dst-" + dstState
